@@ -383,3 +383,38 @@ pub fn replay(case: &Value) -> Vec<Violation> {
     with_curve!(case.curve, G, run_case::<G>(0, &case, &mut st));
     st.violations
 }
+
+pub fn shrink(case: &Value) -> Vec<Value> {
+    let Ok(c) = serde_json::from_value::<Case>(case.clone()) else { return vec![] };
+    let mut out = vec![];
+    for i in (0..c.ops.len()).rev() {
+        let mut d = c.clone();
+        d.ops.remove(i);
+        d.multi = false;
+        out.push(to_value(&d));
+    }
+    if c.parties > 1 {
+        let mut d = c.clone();
+        d.parties -= 1;
+        out.push(to_value(&d));
+    }
+    for c0 in [0usize, 1, c.c0 / 2] {
+        if c0 < c.c0 {
+            let mut d = c.clone();
+            d.c0 = c0;
+            out.push(to_value(&d));
+        }
+    }
+    for (i, op) in c.ops.iter().enumerate() {
+        if let GOp::Increase(x) = op {
+            for y in [1usize, x / 2] {
+                if y < *x {
+                    let mut d = c.clone();
+                    d.ops[i] = GOp::Increase(y);
+                    out.push(to_value(&d));
+                }
+            }
+        }
+    }
+    out
+}
